@@ -307,6 +307,20 @@ def run(ck):
         arch, base = rng.choice(corpus)
         src = base.encode("utf8") if rng.random() < 0.85 else rng.choice(corpus_bytes)
         cases.append((arch, mutate(rng, src, corpus_bytes), "mutation"))
+    # every accepted instruction form of every CPU, and every selector value of the bit / restart / mode groups with every
+    # register (each is its own row of a hand-written table in the parsers), several per file
+    for arch in asmk.ARCHES:
+        forms = [f for f, _ in asmk.census(arch)]
+        if arch != "6502":
+            regs = ["a", "b", "c", "d", "e", "h", "l", "(hl)"] + (["(ix+1)", "(iy+2)"] if arch == "z80" else [])
+            forms += ["%s %d, %s" % (m, n, x) for m in ("bit", "res", "set") for n in range(9) for x in regs]
+            forms += ["rst %d" % v for v in range(0, 0x48, 4)] + ["%s %s" % (m, x) for m in ("rlc", "rrc", "rl", "rr", "sla", "sra", "srl", "swap", "sll") for x in regs]
+            forms += ["im %d" % n for n in range(4)] + ["%s %d, (ix+1), %s" % (m, n, x) for m in ("res", "set") for n in (0, 6) for x in ("a", "d")]
+        for lo in range(0, len(forms), 25):
+            cases.append((arch, ("\n".join(" " + f for f in forms[lo:lo + 25]) + "\n").encode("utf8"), "fragment:isa-forms"))
+        for f in forms:
+            if f.split()[0] in ("bit", "res", "set", "rst", "im", "swap", "sll"):
+                cases.append((arch, (" " + f + "\n").encode("utf8"), "fragment:isa-selectors"))
     skipped = 0
     kept = []
     for arch, data, tag in cases:
